@@ -526,3 +526,123 @@ fn c04_commit_first_committer_wins_3txn_wal_failure() {
 fn c04_witness_f3_through_commit() {
 	three_commits::<21>(false, true);
 }
+
+
+// ---------------------------------------------------------------------------- critical-section structure
+
+/// C04-O8: validation, sequence allocation and the oracle stamp happen inside ONE critical section:
+/// between the start of commit() and the WAL write, the first mutex taken is write_mutex (the only
+/// zero-sized-payload mutex) and every other lock (the oracle's) is taken while it is held.  A check
+/// that runs before the lock is a check-then-act race: two overlapping writers of one key can both
+/// validate and both commit (lost update).
+///
+/// Under Kani the order of lock acquisitions is read from the mutex model's log.  The native replay
+/// (--cfg verif_replay) cannot observe lock order; it demonstrates the race itself on the REAL
+/// commit(): a first committer is parked inside its WAL write (holding write_mutex) while two
+/// transactions that started before it and write the same key call commit(); at most one may succeed.
+#[cfg(not(verif_replay))]
+#[kani::proof]
+#[kani::unwind(4)]
+fn c04_commit_validates_inside_the_critical_section() {
+	let obs = Arc::new(Obs::new(Arc::new(AtomicU64::new(10))));
+	let pipe = mk_pipeline::<0>(&obs, 10);
+	let t = any_txn(1, 0);
+	kani::assume(t.start <= 10);
+	obs.expect_seq.set(11);
+	obs.expect_stamp.set(11);
+	obs.keys.set(t.k);
+	obs.nkeys.set(1);
+	crate::verif_models::lock_log_reset();
+	let r = run_commit(&pipe, mk_batch(t.k[0], t.k[1], 1), t.start);
+	let ok = r.is_ok();
+	core::mem::forget(r);
+	assert!(ok);
+	let n = crate::verif_models::lock_log_len();
+	assert!(n >= 3, "commit took fewer locks than write_mutex + oracle check + oracle publish");
+	let (size0, held0) = crate::verif_models::lock_log_entry(0);
+	assert!(size0 == 0 && held0 == 0, "the first lock commit() takes is not write_mutex: validation runs outside the critical section");
+	// the oracle's check and publish (the next two acquisitions) are nested inside it
+	let (s1, h1) = crate::verif_models::lock_log_entry(1);
+	let (s2, h2) = crate::verif_models::lock_log_entry(2);
+	assert!(s1 > 0 && h1 == 1 && s2 > 0 && h2 == 1, "oracle check / publish not nested inside write_mutex");
+	kani::cover!(n >= 4, "further locks after the critical section (completion slot)");
+	kani::cover!(t.k[0] == b'c', "any key");
+	core::mem::forget(pipe);
+	core::mem::forget(obs);
+}
+
+#[cfg(verif_replay)]
+struct GateEnv {
+	gate: Arc<(std::sync::Mutex<bool>, std::sync::Condvar)>,
+	parked: Arc<AtomicBool>,
+}
+#[cfg(verif_replay)]
+impl CommitEnv for GateEnv {
+	fn write(&self, batch: &Batch, _seq_num: u64, _sync: bool) -> Result<Batch> {
+		// the committer of key "slow" parks here, holding write_mutex, until the gate opens
+		if batch.entries[0].key == b"slow" {
+			self.parked.store(true, Ordering::SeqCst);
+			let (m, c) = &*self.gate;
+			let mut open = m.lock().unwrap();
+			while !*open {
+				open = c.wait(open).unwrap();
+			}
+		}
+		Ok(batch.clone())
+	}
+	fn apply(&self, _b: &Batch) -> Result<()> {
+		Ok(())
+	}
+	fn check_background_error(&self) -> Result<()> {
+		Ok(())
+	}
+	fn oldest_active_start_seq(&self) -> u64 {
+		0
+	}
+}
+
+#[cfg(verif_replay)]
+#[kani::proof]
+fn c04_commit_validates_inside_the_critical_section() {
+	// consume the solver's values so that the playback vector lines up; they do not matter here
+	let _t = any_txn(1, 0);
+	let gate = Arc::new((std::sync::Mutex::new(false), std::sync::Condvar::new()));
+	let parked = Arc::new(AtomicBool::new(false));
+	let stall = Arc::new(WriteStallController::new(
+		Arc::new(NoStall),
+		crate::stall::StallThresholds { memtable_limit: 100, l0_file_limit: 100 },
+	));
+	let pipe = CommitPipeline::new(
+		Arc::new(GateEnv { gate: Arc::clone(&gate), parked: Arc::clone(&parked) }),
+		Arc::new(AtomicU64::new(0)),
+		stall,
+	);
+	let spawn = |key: &'static [u8]| {
+		let p = Arc::clone(&pipe);
+		std::thread::spawn(move || {
+			let rt = tokio::runtime::Builder::new_current_thread().enable_all().build().unwrap();
+			let mut b = Batch::new(0);
+			b.add_record(crate::InternalKeyKind::Set, key.to_vec(), Some(vec![1]), 0).unwrap();
+			rt.block_on(p.commit(b, false, 0))
+		})
+	};
+	let t0 = spawn(b"slow");
+	while !parked.load(Ordering::SeqCst) {
+		std::thread::yield_now();
+	}
+	// both start before each other's commit (start_seq 0) and write the same key
+	let t1 = spawn(b"K");
+	let t2 = spawn(b"K");
+	std::thread::sleep(std::time::Duration::from_millis(400));
+	{
+		let (m, c) = &*gate;
+		*m.lock().unwrap() = true;
+		c.notify_all();
+	}
+	let r0 = t0.join().unwrap();
+	let r1 = t1.join().unwrap();
+	let r2 = t2.join().unwrap();
+	println!("REPLAY critical section race: slow={:?} K#1={:?} K#2={:?}", r0.is_ok(), r1.as_ref().map_err(|e| e.to_string()), r2.as_ref().map_err(|e| e.to_string()));
+	assert!(r0.is_ok());
+	assert!(!(r1.is_ok() && r2.is_ok()), "the first lock commit() takes is not write_mutex: validation runs outside the critical section (both overlapping writers of one key committed)");
+}
